@@ -1,7 +1,7 @@
 (* Further arm-level facts: post-trade margin ratio, withdraw/deposit (C05); funding on the engine
    side (C11); fee notional (C12); restriction marker (C16); opening swaps may not go over the band (C15). *)
 From MP.Model Require Import Prelude U128 SInt Feed Vamm VammOps Token World Engine Runtime.
-From MP.Proofs Require Import Tactics MapFacts SIntFacts EngineArith CloseFacts RuntimeFacts FrameFacts ResidueFacts.
+From MP.Proofs Require Import Tactics MapFacts SIntFacts EngineGuards EngineArith CloseFacts RuntimeFacts FrameFacts ResidueFacts.
 
 (* ---------- C05: the last guard of update_position_reply is the post-state margin ratio ---------- *)
 Lemma update_position_reply_ratio w i o id w' subs tm :
@@ -311,4 +311,205 @@ Proof.
        | Hw : withdraw _ _ _ _ _ = Ok _ |- _ => rewrite (paid_to_withdraw _ _ _ _ _ _ _ _ Hw Hn); clear Hw
        end.
   all: repeat destr_if; zb; try lia; try congruence.
+Qed.
+
+(* ---------- C16: who sets the restriction marker, who stamps positions ---------- *)
+Lemma lrb_after_enter e v h : vm_lrb (read_vmap (enter_restriction_mode e v h) v) = h.
+Proof. unfold enter_restriction_mode, read_vmap, eng_set_vmap; cbn [e_vmap]. rewrite zfind_zset_same. reflexivity. Qed.
+
+Lemma lrb_after_enter_other e v h v2 : v2 <> v -> read_vmap (enter_restriction_mode e v h) v2 = read_vmap e v2.
+Proof. intros Hn. unfold enter_restriction_mode, read_vmap, eng_set_vmap; cbn [e_vmap]. rewrite zfind_zset_other by exact Hn. reflexivity. Qed.
+
+Lemma liquidate_reply_marks w i o w' msgs tm :
+  liquidate_reply w i o = Ok (w', msgs) -> e_tmp (w_eng w) = Some tm ->
+  vm_lrb (read_vmap (w_eng w') (ts_vamm tm)) = height (w_env w) /\
+  (forall v2, v2 <> ts_vamm tm -> read_vmap (w_eng w') v2 = read_vmap (w_eng w) v2) /\
+  find_position (w_eng w') (ts_vamm tm) (ts_trader tm) = None.
+Proof.
+  intros H Htmp. unfold liquidate_reply, need_tmp in H. rewrite Htmp in H. cbn [bind] in H. arm H.
+  all: cbn [w_eng set_eng]; split; [apply lrb_after_enter|]; split;
+       [intros v2 Hn; rewrite lrb_after_enter_other by exact Hn; reflexivity|].
+  all: rewrite find_enter, find_set_liq, find_set_tmp, find_set_state;
+       unfold find_position, positions_of, remove_position; cbn [e_pos]; rewrite zfind_zset_same; apply zfind_zdel_same.
+Qed.
+
+Lemma partial_liquidation_reply_marks w i o w' msgs tm :
+  partial_liquidation_reply w i o = Ok (w', msgs) -> e_tmp (w_eng w) = Some tm ->
+  vm_lrb (read_vmap (w_eng w') (ts_vamm tm)) = height (w_env w) /\
+  (forall v2, v2 <> ts_vamm tm -> read_vmap (w_eng w') v2 = read_vmap (w_eng w) v2).
+Proof.
+  intros H Htmp. unfold partial_liquidation_reply, need_tmp in H. rewrite Htmp in H. cbn [bind] in H. arm H.
+  all: cbn [w_eng set_eng]; split; [apply lrb_after_enter|];
+       intros v2 Hn; rewrite lrb_after_enter_other by exact Hn; reflexivity.
+Qed.
+
+(* every other reply arm leaves every vAMM's marker alone *)
+Lemma update_position_reply_lrb w i o id w' subs : update_position_reply w i o id = Ok (w', subs) -> e_vmap (w_eng w') = e_vmap (w_eng w).
+Proof. unfold update_position_reply. intros H. arm H; reflexivity. Qed.
+Lemma reverse_position_reply_lrb w i o w' subs : reverse_position_reply w i o = Ok (w', subs) -> e_vmap (w_eng w') = e_vmap (w_eng w).
+Proof. unfold reverse_position_reply. intros H. arm H; reflexivity. Qed.
+Lemma close_position_reply_lrb w i o w' subs : close_position_reply w i o = Ok (w', subs) -> e_vmap (w_eng w') = e_vmap (w_eng w).
+Proof. unfold close_position_reply. intros H. arm H; reflexivity. Qed.
+Lemma partial_close_position_reply_lrb w i o w' subs : partial_close_position_reply w i o = Ok (w', subs) -> e_vmap (w_eng w') = e_vmap (w_eng w).
+Proof. unfold partial_close_position_reply. intros H. arm H; reflexivity. Qed.
+
+(* the position-updating replies of a trader's own actions stamp the current block *)
+Lemma reverse_position_reply_stamps w i o w' subs tm :
+  reverse_position_reply w i o = Ok (w', subs) -> e_tmp (w_eng w) = Some tm ->
+  exists p', find_position (w_eng w') (ts_vamm tm) (ts_trader tm) = Some p' /\ p_block p' = height (w_env w).
+Proof.
+  intros H Htmp. unfold reverse_position_reply, need_tmp in H. rewrite Htmp in H. cbn [bind] in H. arm H.
+  all: eexists; cbn [w_eng set_eng]; rewrite ?find_set_state, ?find_set_sent, ?find_set_tmp; split; [apply find_store_same|reflexivity].
+Qed.
+
+Lemma partial_close_position_reply_stamps w i o w' subs tm :
+  partial_close_position_reply w i o = Ok (w', subs) -> e_tmp (w_eng w) = Some tm ->
+  exists p', find_position (w_eng w') (ts_vamm tm) (ts_trader tm) = Some p' /\ p_block p' = height (w_env w).
+Proof.
+  intros H Htmp. unfold partial_close_position_reply, need_tmp in H. rewrite Htmp in H. cbn [bind] in H. arm H.
+  all: eexists; cbn [w_eng set_eng]; rewrite ?find_set_state, ?find_set_sent, ?find_set_tmp; split; [apply find_store_same|reflexivity].
+Qed.
+
+(* a partial liquidation does not stamp the liquidated position: its owner stays free to act unless they
+   themselves acted in this block *)
+Lemma partial_liquidation_reply_no_stamp w i o w' msgs tm :
+  partial_liquidation_reply w i o = Ok (w', msgs) -> e_tmp (w_eng w) = Some tm ->
+  exists p', find_position (w_eng w') (ts_vamm tm) (ts_trader tm) = Some p' /\
+    p_block p' = p_block (get_position (w_eng w) (w_env w) (ts_vamm tm) (ts_trader tm) (ts_side tm)).
+Proof.
+  intros H Htmp. unfold partial_liquidation_reply, need_tmp in H. rewrite Htmp in H. cbn [bind] in H. arm H.
+  all: eexists; cbn [w_eng set_eng]; rewrite find_enter, find_set_liq, find_set_tmp, find_set_state; split; [apply find_store_same|reflexivity].
+Qed.
+
+(* end to end: with the marker and the stamp both at the current height, an OpenPosition / ClosePosition
+   transaction by that trader on that vAMM fails and returns the very same world *)
+Lemma attach_funds_core w s c funds w0 : attach_funds w s c funds = Ok w0 -> w_eng w0 = w_eng w /\ w_env w0 = w_env w.
+Proof. unfold attach_funds. intros H. minv H; inv_ok; split; reflexivity. Qed.
+
+Lemma restricted_same w w0 v t : w_eng w0 = w_eng w -> w_env w0 = w_env w ->
+  require_not_restriction_mode w0 v t = require_not_restriction_mode w v t.
+Proof. intros E1 E2. unfold require_not_restriction_mode. rewrite E1, E2. reflexivity. Qed.
+
+Lemma restricted_open_changes_nothing f w t v s m l lim funds :
+  vm_lrb (read_vmap (w_eng w) v) = height (w_env w) ->
+  p_block (read_position (w_eng w) v t) = height (w_env w) ->
+  step_f f w (OEngine t (EOpenPosition v s m l lim) funds) = (w, false).
+Proof.
+  intros H1 H2. unfold step_f. cbn [exec_op].
+  destruct (attach_funds w t A_ENGINE funds) as [w0|] eqn:Ea; [|reflexivity]. cbn [bind].
+  destruct (attach_funds_core _ _ _ _ _ Ea) as [E1 E2]. cbn [engine_execute].
+  destruct (e_open_position w0 t v s m l lim funds) as [r|] eqn:Eo; [|reflexivity].
+  apply open_restricted in Eo. rewrite (restricted_same w w0 v t E1 E2) in Eo.
+  rewrite (restriction_blocks w v t H1 H2) in Eo. discriminate.
+Qed.
+
+Lemma restricted_close_changes_nothing f w t v lim funds :
+  vm_lrb (read_vmap (w_eng w) v) = height (w_env w) ->
+  p_block (read_position (w_eng w) v t) = height (w_env w) ->
+  step_f f w (OEngine t (EClosePosition v lim) funds) = (w, false).
+Proof.
+  intros H1 H2. unfold step_f. cbn [exec_op].
+  destruct (attach_funds w t A_ENGINE funds) as [w0|] eqn:Ea; [|reflexivity]. cbn [bind].
+  destruct (attach_funds_core _ _ _ _ _ Ea) as [E1 E2]. cbn [engine_execute].
+  destruct (e_close_position w0 t v lim) as [r|] eqn:Eo; [|reflexivity].
+  apply close_restricted in Eo. rewrite (restricted_same w w0 v t E1 E2) in Eo.
+  rewrite (restriction_blocks w v t H1 H2) in Eo. discriminate.
+Qed.
+
+(* ---------- C15: opening swaps may not go over the band, and so end inside it ---------- *)
+From MP.Proofs Require Import VammFacts SwapFacts MirrorFacts.
+
+Lemma swap_input_in_band v e s d quote lim v' qa ba :
+  wfv v -> 0 <= quote -> v_fluct (vc v) <> 0 ->
+  swap_input v e s d quote lim false = Ok (v', (qa, ba)) ->
+  exists upper lower cur post,
+    price_boundaries v e = Ok (upper, lower) /\
+    spot_of (v_dec (vc v)) (v_q (vs v)) (v_b (vs v)) = Ok cur /\ in_band cur upper lower /\
+    spot_of (v_dec (vc v')) (v_q (vs v')) (v_b (vs v')) = Ok post /\ in_band post upper lower.
+Proof.
+  intros Hw Hq Hf H. unfold swap_input in H.
+  destruct (v_open (vs v)); [|discriminate]. cbn [bind] in H.
+  destruct (s =? v_engine (vc v)); [|discriminate]. cbn [bind] in H.
+  destruct (input_price (v_dec (vc v)) d quote (v_q (vs v)) (v_b (vs v))) as [base|] eqn:Ei; [|discriminate]. cbn [bind] in H.
+  pose proof (input_price_nonneg _ _ _ _ _ _ Ei) as Hb.
+  match type of H with bind ?r _ = _ => destruct r; [|discriminate] end. cbn [bind] in H.
+  destruct (update_reserve v e d quote base false) as [v1|] eqn:Eu; [|discriminate]. cbn [bind] in H.
+  injection H as <- <- <-.
+  pose proof Eu as Eu2. unfold update_reserve in Eu2.
+  destruct (check_fluctuation v e d quote base false) as [[]|] eqn:Ec; [|discriminate].
+  apply check_fluctuation_band in Ec; [|exact Hf].
+  destruct Ec as (upper & lower & cur & price & Hpb & Hcur & Hin & Hpost & Hin2).
+  apply update_reserve_spec in Eu; auto. destruct Eu as (Hvc & _ & _ & _ & _ & _ & Hres).
+  exists upper, lower, cur, price. repeat split; try assumption; try apply Hin; try apply Hin2.
+  rewrite Hvc. destruct d; destruct Hres as (Eq & Eb & _); rewrite Eq, Eb; exact Hpost.
+Qed.
+
+(* the swaps an OpenPosition emits: a swap_input that may not go over the band (new / increase / reduce), or -
+   only for a reversal - the swap_output of the whole old position followed later by a swap_input that may
+   not go over it either (reverse_position_reply emits internal_increase_position) *)
+Lemma open_position_swaps w t v s m l lim f w' subs :
+  e_open_position w t v s m l lim f = Ok (w', subs) ->
+  exists msg, subs = [msg] /\
+    ((exists q id, sm_msg msg = MSwapInput v (side_to_direction s) q lim false /\ sm_id msg = id /\ (id = INCREASE_ID \/ id = DECREASE_ID)) \/
+     (exists d b, sm_msg msg = MSwapOutput v d b 0 /\ sm_id msg = REVERSE_ID)).
+Proof.
+  unfold e_open_position. intros H. arm H.
+  all: eexists; split; [reflexivity|].
+  all: match goal with |- context [if ?c then _ else _] => destruct c end;
+       [left; do 2 eexists; cbn [internal_increase_position swap_input_msg sm_msg sm_id]; split; [reflexivity|split; [reflexivity|left; reflexivity]]|].
+  all: match goal with |- context [if ?c then _ else _] => destruct c end;
+       [left; do 2 eexists; cbn [swap_input_msg sm_msg sm_id]; split; [reflexivity|split; [reflexivity|right; reflexivity]]
+       |right; do 2 eexists; cbn [swap_output_msg sm_msg sm_id]; split; reflexivity].
+Qed.
+
+Lemma reopen_leg_cannot_go_over v s n l : sm_msg (internal_increase_position v s n l) = MSwapInput v (side_to_direction s) n l false.
+Proof. reflexivity. Qed.
+
+(* what the vAMM answers to "would swapping this base amount out leave the price outside the band?" *)
+Lemma over_limit_spec v e d base r :
+  v_fluct (vc v) <> 0 -> q_is_over_fluctuation_limit v e d base = Ok r ->
+  exists upper lower quote price,
+    price_boundaries v e = Ok (upper, lower) /\ q_output_amount v d base = Ok quote /\
+    (match d with
+     | RemoveFromAmm => spot_of (v_dec (vc v)) (v_q (vs v) + quote) (v_b (vs v) - base)
+     | AddToAmm => spot_of (v_dec (vc v)) (v_q (vs v) - quote) (v_b (vs v) + base)
+     end) = Ok price /\
+    r = out_of_band price upper lower.
+Proof.
+  intros Hf H. unfold q_is_over_fluctuation_limit in H. apply Z.eqb_neq in Hf. rewrite Hf in H.
+  destruct (price_boundaries v e) as [[upper lower]|]; [|discriminate]. cbn [bind] in H.
+  destruct (q_output_amount v d base) as [quote|]; [|discriminate]. cbn [bind] in H.
+  match type of H with bind ?m _ = _ => destruct m as [price|] eqn:Em; [|discriminate] end. cbn [bind] in H.
+  inv_ok. exists upper, lower, quote, price. repeat split.
+  destruct d; inv_bind Em; inv_bind Em; inv_bind Em; unfold spot_of;
+  match goal with
+  | Ha : cadd _ _ = Ok _, Hsb : csub _ _ = Ok _ |- _ =>
+      apply cadd_ok in Ha; destruct Ha as [Ha _]; apply csub_ok in Hsb; destruct Hsb as [Hsb _]; subst
+  end;
+  match goal with Hmul : cmul _ _ = Ok _ |- _ => rewrite Hmul end; cbn [bind]; assumption.
+Qed.
+
+(* ClosePosition: the whole position is swapped out unless doing so would leave the price outside the band
+   and the partial ratio is below 100%; then exactly floor(|size| x ratio / D) base is swapped out *)
+Lemma close_position_choice w t v lim w' subs :
+  e_close_position w t v lim = Ok (w', subs) ->
+  let p := read_position (w_eng w) v t in
+  let c := ec (w_eng w) in
+  let dir := if sgtb (p_size p) szero then AddToAmm else RemoveFromAmm in
+  exists vm over, get_vamm w v = Ok vm /\ q_is_over_fluctuation_limit vm (w_env w) dir (sval (p_size p)) = Ok over /\
+    sval (p_size p) <> 0 /\
+    (if over && (e_plr c <? e_dec c)
+     then subs = [swap_output_msg v (direction_to_side (p_dir p)) (sval (p_size p) * e_plr c / e_dec c) 0 PARTIAL_CLOSE_ID]
+     else subs = [swap_output_msg v (direction_to_side (p_dir p)) (sval (p_size p)) lim CLOSE_ID]).
+Proof.
+  intros H p c dir. unfold e_close_position in H. fold p c in H. cbv zeta in H. fold dir in H.
+  destruct (negb (e_pause (es (w_eng w)))); [|discriminate]. cbn [bind] in H.
+  destruct (Z.eqb_spec (sval (p_size p)) 0) as [|Hnz]; [discriminate|]. cbn [negb bind] in H.
+  destruct (require_not_restriction_mode w v t); [|discriminate]. cbn [bind] in H.
+  destruct (get_vamm w v) as [vm|] eqn:Ev; [|discriminate]. cbn [bind] in H.
+  destruct (q_is_over_fluctuation_limit vm (w_env w) dir (sval (p_size p))) as [over|] eqn:Eo; [|discriminate]. cbn [bind] in H.
+  exists vm, over. split; [reflexivity|]. split; [exact Eo|]. split; [exact Hnz|].
+  destruct (over && (e_plr c <? e_dec c)).
+  - minv H. inv_ok. arith_ok. subst. reflexivity.
+  - unfold internal_close_position in H. inv_ok. reflexivity.
 Qed.
